@@ -166,7 +166,67 @@ example : compileMain true [] ["$v"] []
         [⟨"g", 0, "m.g", [.fn "y::f" 0, .var "d", .var "d::d", .var "v"]⟩])] [])
     (.fn "a::g" 0) = .ok "m.g(x.f(),D:j,D:j,G:$v)" := by decide
 
-/-! ## 3. data imports, modulemeta -/
+/-! ## 3. import = textual inclusion with renaming -/
+
+/-- FULL statement: compiling an import header is compiling the inlined-and-renamed text.
+    As it stands it is false, for two reasons that are not defects of the code: plain textual
+    renaming is not hygienic for the free names of a module (builtins such as `length`, see
+    `inline_needs_closed` below), and a data import has no textual counterpart among
+    definitions. -/
+def import_eq_inline_statement : Prop :=
+  ∀ (cfg : Cfg) (imps : List ITree) (sc : Scope), cfg.isolate = true →
+    compileImports cfg imps sc = compileDefs cfg (inlineImports imps) sc
+
+/-- PROVED part: for module trees without data imports in which the text of every module
+    imported with an alias refers only to its own names (every call is to the definition being
+    made or to an earlier one of that module's text, at every depth), compiling the import
+    header `import`/`include` by `import`/`include` yields exactly the scope — names, arities,
+    what every call resolves to, or the same error — that compiling the flat text does in which
+    every `include` is replaced by the file's text and every `import … as a` by the file's text
+    with its names prefixed `a::`.  Gap to the full statement: hygiene of free names (builtins)
+    and data imports; both sides of the gap are exercised by the harness's inline oracle. -/
+theorem import_eq_inline_partial (cfg : Cfg) (hiso : cfg.isolate = true) (imps : List ITree) (sc : Scope)
+    (hpure : pureImports imps = true) (hclosed : closedImports imps = true)
+    (hv : sc.variables.length ≤ cfg.globalcnt) :
+    compileImports cfg imps sc = compileDefs cfg (inlineImports imps) sc :=
+  compileImports_inline cfg hiso imps sc hpure hclosed hv
+
+/-- a diamond with a nested alias and an include, closed and pure: the hypotheses hold -/
+def inlineExample : List ITree :=
+  [.mod "" (.node "i" [] [⟨"h", 0, "i.h", []⟩]),
+   .mod "a" (.node "m" [.mod "y" (.node "x" [] [⟨"f", 0, "x.f", []⟩, ⟨"f", 1, "x.f1", [.fn "f" 0]⟩])]
+      [⟨"g", 0, "m.g", [.fn "y::f" 1]⟩, ⟨"h", 0, "m.h", [.fn "g" 0, .fn "h" 0]⟩]),
+   .mod "b" (.node "x" [] [⟨"f", 0, "x.f", []⟩, ⟨"f", 1, "x.f1", [.fn "f" 0]⟩])]
+
+example : pureImports inlineExample = true ∧ closedImports inlineExample = true := by decide
+example : (inlineImports inlineExample).map (fun d => (d.name, d.calls)) =
+    [("h", []), ("a::y::f", []), ("a::y::f", [.fn "a::y::f" 0]), ("a::g", [.fn "a::y::f" 1]),
+     ("a::h", [.fn "a::g" 0, .fn "a::h" 0]), ("b::f", []), ("b::f", [.fn "b::f" 0])] := by decide
+example : (compileImports {} inlineExample {}).map (·.funcs.map (·.res)) =
+    .ok ["i.h()", "x.f()", "x.f1(x.f())", "m.g(x.f1(x.f()))", "m.h(m.g(x.f1(x.f())),self)", "x.f()", "x.f1(x.f())"] := by decide
+
+/-- the closedness hypothesis is needed: a module calling the builtin `length` — the modular
+    program reaches the builtin; in the inlined text the call is renamed with the block
+    (`renameDefs` prefixes every call) and dangles.  Renaming only the module's own names, as
+    the harness's inlined program text does, would instead let the importer's `length` capture
+    the call: plain textual renaming is not hygienic for free names either way. -/
+theorem inline_needs_closed :
+    let imps : List ITree :=
+      [.mod "" (.node "i" [] [⟨"length", 0, "i.length", []⟩]),
+       .mod "a" (.node "m" [] [⟨"g", 0, "m.g", [.fn "length" 0]⟩])]
+    let cfg : Cfg := { builtins := [("length", 0)] }
+    (compileImports cfg imps {}).map (·.funcs.map (·.res)) = .ok ["i.length()", "m.g(B:length/0)"]
+      ∧ (compileDefs cfg (inlineImports imps) {}).map (·.funcs.map (·.res)) = .error (.undefinedFunc "a::length" 0)
+      ∧ ¬ import_eq_inline_statement := by
+  refine ⟨by decide, by decide, ?_⟩
+  intro h
+  have := h { builtins := [("length", 0)] }
+    [.mod "" (.node "i" [] [⟨"length", 0, "i.length", []⟩]),
+     .mod "a" (.node "m" [] [⟨"g", 0, "m.g", [.fn "length" 0]⟩])] {} rfl
+  revert this
+  decide
+
+/-! ## 4. data imports, modulemeta -/
 
 /-- `import "d" as $d;` binds `$d` and `$d::d`, both to the array of the file's values. -/
 theorem data_import_binding (cfg : Cfg) (alias id : String) (sc : Scope) :
@@ -175,5 +235,32 @@ theorem data_import_binding (cfg : Cfg) (alias id : String) (sc : Scope) :
       ∧ lookupVar (pushData sc alias id).variables ("$" ++ alias ++ "::" ++ alias)
           = some ⟨"$" ++ alias ++ "::" ++ alias, sc.depth, "D:" ++ id⟩ := by
   exact ⟨by simp [compileImports], (lookupVar_pushData sc alias id).1, (lookupVar_pushData sc alias id).2⟩
+
+/-- `modulemeta`: the definition list holds exactly the module's definitions whose name does
+    not start with `_`, as name/arity pairs, sorted by name and then arity; the dependency list
+    has one entry per import, in order, with the path as written, the alias without `$`, the
+    data flag and the import's metadata. -/
+theorem modulemeta_spec (m : Module) :
+    (listModuleDefs m).Pairwise (fun x y => defLt y x = false)
+      ∧ (∀ x, x ∈ listModuleDefs m ↔ x ∈ (m.defs.filter fun d => !startsWithUnderscore d.name).map fun d => (d.name, d.arity))
+      ∧ (listModuleDefs m).length = (m.defs.filter fun d => !startsWithUnderscore d.name).length
+      ∧ (listModuleDeps m).map (fun d => (d.relpath, d.isData)) = m.imports.map (fun i => (i.path, i.isData))
+      ∧ (listModuleDeps m).map (·.md) = m.imports.map (·.md) := by
+  refine ⟨sortDefs_sorted _, fun x => sortDefs_mem x _, ?_, ?_, ?_⟩
+  · simp [listModuleDefs, sortDefs_length]
+  · simp [listModuleDeps]
+  · simp [listModuleDeps]
+
+example : listModuleDefs ⟨[], [⟨"g", 1, "", []⟩, ⟨"f", 2, "", []⟩, ⟨"_p", 0, "", []⟩, ⟨"f", 0, "", []⟩, ⟨"g", 1, "", []⟩]⟩
+    = [("f", 0), ("f", 2), ("g", 1), ("g", 1)] := by decide
+example : (listModuleDeps ⟨[⟨"x", "y", false, none⟩, ⟨"d", "$d", true, none⟩, ⟨"i", "", false, none⟩], []⟩).map (fun d => (d.relpath, d.as, d.isData))
+    = [("x", some "y", false), ("d", some "d", true), ("i", none, false)] := by decide
+
+/-! non-vacuity of the hypotheses used above -/
+example : compileImports {} [.mod "a" (.node "m" [] [⟨"f", 0, "m.f", []⟩]), .data "d" "j"] {}
+    = .ok { funcs := [⟨"a::f", 0, "m.f()"⟩], variables := [⟨"$d", 0, "D:j"⟩, ⟨"$d::d", 0, "D:j"⟩], depth := 0 } := by decide
+example : compileMod {} (.node "m" [] [⟨"f", 0, "m.f", []⟩]) "a" { funcs := [⟨"x", 0, "r"⟩], variables := [⟨"$d", 0, "D:1"⟩] }
+    = .ok { funcs := [⟨"x", 0, "r"⟩, ⟨"a::f", 0, "m.f()"⟩], variables := [⟨"$d", 0, "D:1"⟩], depth := 0 } := by decide
+example : searchPaths ⟨"/cwd", none, none⟩ ["/l"] (some [("search", .str "./nowhere"), ("search", .str "../x")]) = ["../x", "/l"] := by decide
 
 end Gojq.C18
